@@ -243,8 +243,11 @@ asn_parse(uint8_t *buf, size_t buf_size, size_t *offset, size_t *hdr_size,
 		}
 	}
 	dt = cur_pos;
+	if ((size_t)(max_pos - cur_pos) < dt_size) /* Short form length is not checked above. */
+		return (EBADMSG);
 	/* Flags check. */
 	if (ASN_ID_CLASS_UNIVERSAL == cls &&
+	    (sizeof(asn_class_uni_ps) / sizeof(asn_class_uni_ps[0])) > tag &&
 	    (ASN_ID_F_PC != asn_class_uni_ps[tag] && f_ps != asn_class_uni_ps[tag]))
 		return (EBADMSG);
 	/* Ok, return. */
